@@ -23,12 +23,21 @@ func init() {
 }
 
 func runC05(c *fw.Ctx) {
+	t0 := time.Now()
+	phase := func(name string) {
+		if c.Shard == 0 {
+			c.Note("seconds_until_end_of_"+name, int(time.Since(t0).Seconds()))
+		}
+	}
 	if c.Shard == 0 && bisimHook != nil {
 		bisimHook(c)
 	}
+	phase("bisimulation_report")
 	if corpusC05Hook != nil {
 		corpusC05Hook(c)
 	}
+	phase("corpus")
+	defer phase("pool")
 	docSets(!c.Quick(), func(name string, blocks []doc.Block) {
 		if c.Expired() {
 			return
@@ -108,6 +117,9 @@ var corpusC05Hook func(c *fw.Ctx)
 
 // c05Judge runs one rewritten text and compares it with the baseline of the same document.
 func c05Judge(c *fw.Ctx, name string, r *doc.Rendered, baseOut drv.Outcome, w doc.Rewrite, textFn func() string) {
+	if c.Expired() {
+		return // the cap is honoured inside large documents, too
+	}
 	if !c.Next() {
 		return
 	}
